@@ -204,7 +204,7 @@ def shard(ctx, n, sub):
 
 
 def main(ctx):
-    n = ctx.pick(25, 600)
+    n = ctx.pick(25, 4000)
     ctx.shards("shard", [{"n": n, "sub": s} for s in range(16)])
     ctx.require("pairs_compared", 5000)
     ctx.require("kind_wrapped-inner-body", 100)
